@@ -86,6 +86,19 @@ def automaton_strings(G, start, cont, extra_prefix_len):
     return [(x, True) for x in sorted(base, key=key)] + [(x, False) for x in sorted(out, key=key)]
 
 
+def carried_bits(G, start, s):
+    """Bits carried in fast mode by the longest prefix of s that is a walk."""
+    v, b = start, 0
+    for c in s:
+        j = O.NUC.find(c)
+        if j < 0 or len(c) != 1 or G[v][j] < 0:
+            break
+        d = len(O.outs(G, v))
+        b += 2 if d == 4 else 1 if d == 2 else 0
+        v = G[v][j]
+    return b
+
+
 def bits_needed(s):
     return 2 * len(s) + 2
 
@@ -96,6 +109,8 @@ def check_class(r, k, G, start, cont, extra, fast_ok, quick=True, brute=0):
     if brute:
         have = {x for x, _ in strings}
         strings += [(x, False) for x in U.all_strings(brute, 'ACGTN') if x not in have]
+    T = U.table_latin(len(G), 1)
+    tab = np.array(T, dtype=int)
     for s, is_base in strings:
         w = O.is_walk(G, start, s)
         need = bits_needed(s)
@@ -103,8 +118,16 @@ def check_class(r, k, G, start, cont, extra, fast_ok, quick=True, brute=0):
         if is_base or not quick:
             for L in ((0, need + 3) if quick else (0, 1, need + 3)):
                 dec_case(r, k, G, acc, start, s, L, walk=w)
+            # acceptance must not depend on a digit-shuffle table either
+            dec_case(r, k, G, acc, start, s, need, T=T, tab=tab, walk=w)
+            if fast_ok:
+                dec_case(r, k, G, acc, start, s, need, fast=True, T=T, tab=tab, walk=w)
         if fast_ok:
             dec_case(r, k, G, acc, start, s, need, fast=True, walk=w)
+            # tight width: exactly the bits carried by the walkable prefix ("no more bits than requested")
+            tight = carried_bits(G, start, s)
+            if tight != need:
+                dec_case(r, k, G, acc, start, s, tight, fast=True, walk=w)
         if len(s) <= (2 if quick else 3) and (is_base or not quick):
             ok_chars = all(c in 'ACGT' for c in s)
             if ok_chars:
